@@ -246,6 +246,10 @@ func (c *checker) query(q *Query, outer []cscope) ([]ctype, error) {
 			if outerRef(q.On, 1) {
 				return nil, fmt.Errorf("join condition references an enclosing query")
 			}
+			if hasOr(q.On) && c.anyIndexed() {
+				// engine limitation (C03's subject): OR in a join condition over indexed tables is merged with WHERE ranges wrongly
+				return nil, fmt.Errorf("OR in a join condition over indexed tables")
+			}
 			if hasSubquery(q.On) {
 				// engine limitation: subqueries in ON that reference a join sibling fail with "unable to find field"
 				return nil, fmt.Errorf("subquery in a join condition")
@@ -480,6 +484,22 @@ func escapesQ(q *Query, d int) bool {
 		return escapesQ(q.L, d) || escapesQ(q.R, d)
 	case "order":
 		return escapesQ(q.Q, d)
+	}
+	return false
+}
+
+func hasOr(e *Expr) bool {
+	if e == nil {
+		return false
+	}
+	return e.Op == "or" || hasOr(e.A) || hasOr(e.B)
+}
+
+func (c *checker) anyIndexed() bool {
+	for _, t := range c.tables {
+		if t.PK >= 0 || len(t.Idx) > 0 {
+			return true
+		}
 	}
 	return false
 }
